@@ -369,6 +369,10 @@ class InterpBase:
             folded = _fold_int(e)
             if folded is not None:
                 return VInt(folded)
+            if isinstance(e, ast.Call) and isinstance(e.func, ast.Name) and e.func.id == 'getattr' and len(e.args) >= 2 and isinstance(e.args[0], ast.Name) \
+                    and isinstance(e.args[1], ast.Constant) and isinstance(e.args[1].value, str):
+                # NAME = getattr(module, 'FLAG', default): an opaque constant of that module (a socket flag, a signal number)
+                return VExt(f'{e.args[0].id}.{e.args[1].value}')
             raise Undecided(f'module constant {name} = {ast.unparse(e)}')
         raise Undecided(f'resolution {r}')
 
